@@ -4,8 +4,10 @@
        default   0|1
        neverreply comma separated message types that are never looked up in c.awaiting, or -
        awaiting  comma separated ids in c.awaiting at the start, or -
-       env       ';'-separated entries  <ids registered before this lookup or ->/<r|p>/<k>
-                 (entry j belongs to the j-th header read; beyond the list: -/r/0), or -
+       env       ';'-separated entries  <ids registered before this lookup or ->/<r|p|pe|pr|po>/<k>  (p.. = panic with a string / error / runtime.Error / other value)
+                 optionally followed by /1: this client has sent CloseConnection (a CloseConnectionResponse
+                 then announces the orderly end of the stream)
+                 (entry j belongs to the j-th header read; beyond the list: -/r/0 with the last entry's flag), or -
        hexstream the inbound bytes ("-" = empty)
    answer:  one field per dispatch record
        <ver>,<typ>,<len>,<id>|<reply>|<handler>|<discarded 0/1>|<alloc>
@@ -21,6 +23,7 @@ let rec int_of_pos = function XH -> 1 | XO p -> 2 * int_of_pos p | XI p -> 2 * i
 let int_of_n = function N0 -> 0 | Npos p -> int_of_pos p
 let rec int_of_nat = function O -> 0 | S n -> 1 + int_of_nat n
 
+let default_close = ref false
 let byte_tab = Array.init 256 n_of_int
 
 let hexval c = match c with
@@ -70,16 +73,18 @@ let () =
          let nrl = ints nr in
          let cfg = { has_handler = (fun t -> List.mem (int_of_n t) hl); has_default = (df = "1");
                      never_reply = (fun t -> List.mem (int_of_n t) nrl) } in
+         default_close := false;
          let entries = if env = "-" then [||] else
              Array.of_list (List.map (fun e ->
                  match String.split_on_char '/' e with
-                 | [regs; kind; k] ->
+                 | regs :: kind :: k :: more ->
                    let k = n_of_int (int_of_string k) in
-                   { e_register = List.map n_of_int (ints regs); e_beh = (if kind = "p" then HPanic k else HRead k) }
+                   { e_register = List.map n_of_int (ints regs); e_beh = (match kind with "p" -> HPanic (k, PvString) | "pe" -> HPanic (k, PvError) | "pr" -> HPanic (k, PvRuntimeError) | "po" -> HPanic (k, PvOther) | _ -> HRead k) ; e_close_sent = (more = ["1"]) }
                  | _ -> failwith "env") (String.split_on_char ';' env)) in
+         if Array.length entries > 0 then default_close := entries.(Array.length entries - 1).e_close_sent;
          let envf (i : nat) =
            let i = int_of_nat i in
-           if i < Array.length entries then entries.(i) else { e_register = []; e_beh = HRead N0 } in
+           if i < Array.length entries then entries.(i) else { e_register = []; e_beh = HRead N0; e_close_sent = !default_close } in
          let st = { s_aw = List.map n_of_int (ints aw); s_closed_seen = false } in
          let r = serve (n_of_int (int_of_string maxbuf)) cfg st envf (bytes_of_hex hex) in
          List.iter (fun d -> print_string (dispatch_s d); print_char ' ') r.r_log;
